@@ -115,8 +115,11 @@ def generate(rng, tier):
             ops.append({"op": "rm_pyc"})
         elif r < 0.86:
             ops.append({"op": "trunc_pyc", "n": rng.choice([0, 3, 8, 15])})
-        elif r < 0.95:
+        elif r < 0.92:
             ops.append({"op": "arm", "fault": rng.choice(["enospc", "eacces", "crash_before_rename"])})
+        elif r < 0.96:
+            # the module shipped in a zip archive: source and bytecode together, bytecode only, source only
+            ops.append({"op": "zip_import", "what": rng.choice(["both", "both", "pyc", "src"])})
         else:
             ops.append({"op": "dwb", "on": rng.random() < 0.6})
     ops += [{"op": "import"}, {"op": "import"}]
@@ -341,6 +344,73 @@ def execute(desc):
                 events.append([oi, "import", path, len(got_c), len(got_r)])
                 seq.append(("import", path))
                 fault_pending = False
+            elif kind == "zip_import":
+                import importlib
+                import zipfile
+                import zipimport
+                what = op["what"] if pyc_valid else "src"
+                zdir = os.path.join(W.root, "_zips")
+                os.makedirs(zdir, exist_ok=True)
+                zpath = os.path.join(zdir, "a%d.zip" % oi)
+                with zipfile.ZipFile(zpath, "w") as z:
+                    if what in ("both", "src"):
+                        z.writestr(name + ".hy", model.text())
+                    if what in ("both", "pyc"):
+                        with open(W.pyc(name), "rb") as f:
+                            z.writestr(name + ".pyc", f.read())
+                W.restart()
+                del log.events[:]
+                real_cs = zipimport._compile_source
+
+                def bracket(*a, **k):
+                    W.phase.append(name)
+                    try:
+                        return real_cs(*a, **k)
+                    finally:
+                        W.phase.pop()
+
+                zipimport._compile_source = bracket
+                sys.path.insert(0, zpath)
+                try:
+                    importlib.invalidate_caches()
+                    try:
+                        zmod = importlib.import_module(name)
+                        zerr = None
+                    except BaseException as e:
+                        zmod, zerr = None, e
+                finally:
+                    zipimport._compile_source = real_cs
+                    sys.path.remove(zpath)
+                    sys.path_importer_cache.pop(zpath, None)
+                    zipimport._zip_directory_cache.pop(zpath, None)
+                probes["zip_imports"] = probes.get("zip_imports", 0) + 1
+                if zerr is not None or not str(getattr(zmod, "__file__", "")).startswith(zpath):
+                    viols.append({"clause": "import_failed", "sig": "zip:" + what,
+                                  "detail": {"op": oi, "error": repr(zerr)[:300], "file": str(getattr(zmod, "__file__", None))}})
+                    W.restart()
+                    break
+                got_c = [t for ph, t in log.events if ph == "compile"]
+                got_r = [t for ph, t in log.events if ph == "run"]
+                if what == "src":
+                    # CPython's zipimport asks for the code of a source-only entry twice (get_filename, then get_code):
+                    # one or two complete compile passes are both accepted here, never a partial or reordered one
+                    ok_c = got_c in (model.compile_log, model.compile_log * 2)
+                else:
+                    ok_c = got_c == []
+                if not ok_c:
+                    viols.append({"clause": "compile_time_effects", "sig": "zip:" + what,
+                                  "detail": {"op": oi, "archive": what, "got": got_c,
+                                             "expected": model.compile_log if what == "src" else [], "text": model.text()[:1200]}})
+                if got_r != model.run_log:
+                    viols.append({"clause": "run_time_effects", "sig": "zip:" + what,
+                                  "detail": {"op": oi, "archive": what, "got": got_r, "expected": model.run_log, "text": model.text()[:1200]}})
+                gotv = {k: getattr(zmod, k, "<missing>") for k in model.values}
+                if {k: repr(v) for k, v in gotv.items()} != {k: repr(v) for k, v in model.values.items()}:
+                    viols.append({"clause": "values", "sig": "zip:" + what, "detail": {"op": oi, "got": repr(gotv)[:300], "expected": repr(model.values)[:300]}})
+                mod = zmod
+                loaded_model = model
+                events.append([oi, "zip_import", what, len(got_c), len(got_r)])
+                seq.append(("zip_import", what))
             elif kind == "call":
                 if mod is None or not model.fns:
                     continue
